@@ -1,5 +1,6 @@
 (* C15 Bid format conversion preserves every bid's remaining amounts. *)
-From ATS Require Import Prelude Dec DecFacts Uuid Semver Types Contract Tactics Spec MigrateProofs.
+From ATS Require Import Prelude Dec DecFacts Uuid Semver Types Contract Tactics Spec Inv InvAsk InstProofs AskProofs
+  BidFacts InvBid InvStep MigrateProofs MigrateInv.
 
 (* one bid, any event log (induction on the log inside sum_checked_ok): the consumed amounts of the converted bid
    are the sums over the fill / refund / reject events, every other field is copied: remaining base, quote and
@@ -32,6 +33,15 @@ Print Assumptions C15_book_slots.
 Theorem C15_nothing_rewritten_after_window : forall l, convert_slots false l = Ok l.
 Proof. exact convert_slots_off. Qed.
 Print Assumptions C15_nothing_rewritten_after_window.
+
+(* a converted bid then behaves like a native one: if the stored asks are consistent, the current-format bids are
+   consistent and every old-format bid has a well-formed log (its conversion is a consistent bid), the migrated state
+   satisfies the full invariant -- so C01 .. C12 (solvency, settlement, exits, fees ...) apply verbatim to it *)
+Theorem C15_converted_behaves_native : forall e st c m st' r,
+  MigPre st c -> env_version_ok e -> migrate e st m = Ok (st', r) ->
+  (forall k o, lookup k (st_bids st') <> Some (SlotV2 o)) -> Inv st'.
+Proof. exact Inv_after_migrate. Qed.
+Print Assumptions C15_converted_behaves_native.
 
 (* non-vacuity: the log of the repository's own migration test (fill 2/4/1, refund 2, reject 3/9/2) *)
 Example C15_example :
